@@ -290,7 +290,7 @@ def validate_traces(ctx, module, cfg, trace_path, label, is_reset=default_is_res
                     deque=True, stack=True, heap="3g")
             total = sum(len(h) for h in ch)
             m = re.search(r'<<"TRACE_REJECTED", (\d+), (\d+)', r.text)
-            if m is None:
+            if m is None or r.inv_violated:
                 if r.inv_violated:
                     # a spec invariant failed in a state reached by the real trace
                     d = _diameter_from_invariant(r)
